@@ -18,7 +18,8 @@ THEOREMS = ["LNN.C13_aggregate_zero_iff",
             "LNN.C13_fol_down_zero_iff",
             "LNN.C13_fol_pass_zero_iff",
             "LNN.C13_fol_restricted",
-            "LNN.C13_fol_amount_eq_potential_drop"]
+            "LNN.C13_fol_amount_eq_potential_drop",
+            "LNN.C13_layer_amount_eq_potential_drop"]
 MODULES = ["LnnVerif.Props.C13", "LnnVerif.Props.C06Term"]
 FACETS = {"bounds", "reported"}
 
